@@ -408,10 +408,15 @@ func namespaceOf(w *World, fn *ssa.Function, m ssa.Value) string {
 	if !ok {
 		return ""
 	}
+	if !typeIs(mt.Elem(), modPath+"/internal/model", "Field") {
+		return ""
+	}
 	if _, fresh := valueRoot(m).(*ssa.MakeMap); fresh {
-		if typeIs(mt.Elem(), modPath+"/internal/model", "Field") {
-			return "fields"
-		}
+		return "fields"
+	}
+	// a name set kept in a scratch record of the parser (not a model struct)
+	if key := structFieldKey(m); key != "" && !strings.Contains(key, "/internal/model.") {
+		return "fields"
 	}
 	return ""
 }
@@ -661,6 +666,51 @@ func fieldCollectors(w *World) []*ssa.Function {
 	return out
 }
 
+// collectorCluster: the collector, its direct callers in the parse phase and the helpers those call - the routines that together
+// handle one packet body. Other collectors and visitor methods of other grammar rules are not entered.
+func collectorCluster(w *World, col *ssa.Function, cols []*ssa.Function) []*ssa.Function {
+	isCol := map[*ssa.Function]bool{}
+	for _, c := range cols {
+		isCol[c] = true
+	}
+	phase := map[*ssa.Function]bool{}
+	for _, f := range parsePhaseFuncs(w) {
+		phase[f] = true
+	}
+	seen := map[*ssa.Function]bool{col: true}
+	roots := []*ssa.Function{col}
+	for f := range phase {
+		if isCol[f] {
+			continue
+		}
+		forEachInstr(f, func(_ *ssa.BasicBlock, ins ssa.Instruction) {
+			if c, ok := ins.(ssa.CallInstruction); ok && c.Common().StaticCallee() == col && !seen[f] {
+				seen[f] = true
+				roots = append(roots, f)
+			}
+		})
+	}
+	stack := append([]*ssa.Function{}, roots...)
+	for len(stack) > 0 {
+		f := stack[len(stack)-1]
+		stack = stack[:len(stack)-1]
+		forEachInstr(f, func(_ *ssa.BasicBlock, ins ssa.Instruction) {
+			c, ok := ins.(ssa.CallInstruction)
+			if !ok {
+				return
+			}
+			g := c.Common().StaticCallee()
+			if g == nil || seen[g] || !phase[g] || isCol[g] || strings.HasPrefix(g.Name(), "Visit") {
+				return
+			}
+			seen[g] = true
+			stack = append(stack, g)
+		})
+	}
+	out := sortedFuncs(seen)
+	return out
+}
+
 // collectorRules: every field collector (a) diagnoses a length-of field it may not hold (or is the root collector that links it)
 // and (b) links match fields to their key field through a checked lookup. Sibling rule over the collectors.
 func collectorRules(w *World, r *Report, ruleLen, ruleLink string) {
@@ -668,27 +718,31 @@ func collectorRules(w *World, r *Report, ruleLen, ruleLink string) {
 	if len(cols) < 2 {
 		r.fail(ruleLink, "field collectors found", "internal/parser/packet_dsl_parser.go", fmt.Sprintf("expected the packet and inline-object collectors, found %d", len(cols)))
 	}
-	for _, fn := range cols {
+	for _, col := range cols {
+		fn := col
+		cluster := collectorCluster(w, col, cols)
 		// (a) a checked assertion to *LengthFieldAttribute whose ok edge reaches AddSyntaxError
 		lenDiag := false
-		for _, b := range fn.Blocks {
-			iff, ok := b.Instrs[len(b.Instrs)-1].(*ssa.If)
-			if !ok {
-				continue
-			}
-			ex, ok := iff.Cond.(*ssa.Extract)
-			if !ok || ex.Index != 1 {
-				continue
-			}
-			ta, ok := ex.Tuple.(*ssa.TypeAssert)
-			if !ok || !ta.CommaOk || modelTypeName(ta.AssertedType) != "LengthFieldAttribute" {
-				continue
-			}
-			for _, bb := range fn.Blocks {
-				if edgeDominates(b, 0, bb) {
-					for _, i2 := range bb.Instrs {
-						if isAddSyntaxError(i2) {
-							lenDiag = true
+		for _, fn := range cluster {
+			for _, b := range fn.Blocks {
+				iff, ok := b.Instrs[len(b.Instrs)-1].(*ssa.If)
+				if !ok {
+					continue
+				}
+				ex, ok := iff.Cond.(*ssa.Extract)
+				if !ok || ex.Index != 1 {
+					continue
+				}
+				ta, ok := ex.Tuple.(*ssa.TypeAssert)
+				if !ok || !ta.CommaOk || modelTypeName(ta.AssertedType) != "LengthFieldAttribute" {
+					continue
+				}
+				for _, bb := range fn.Blocks {
+					if edgeDominates(b, 0, bb) {
+						for _, i2 := range bb.Instrs {
+							if isAddSyntaxError(i2) {
+								lenDiag = true
+							}
 						}
 					}
 				}
@@ -705,29 +759,31 @@ func collectorRules(w *World, r *Report, ruleLen, ruleLink string) {
 		// (b) MatchKeyField assigned from a found lookup
 		if ruleLink != "" {
 			linked := false
-			tests := membershipTests(fn)
-			forEachInstr(fn, func(b *ssa.BasicBlock, ins ssa.Instruction) {
-				st, ok := ins.(*ssa.Store)
-				if !ok {
-					return
-				}
-				fa, ok := st.Addr.(*ssa.FieldAddr)
-				if !ok {
-					return
-				}
-				if tn, f, _, _ := fieldOf(fa); tn != "MatchFieldAttribute" || f != "MatchKeyField" {
-					return
-				}
-				if ex, ok := stripIdentity(st.Val).(*ssa.Extract); ok {
-					if lk, ok := ex.Tuple.(*ssa.Lookup); ok && lk.CommaOk {
-						for _, t := range tests {
-							if t.lookup == lk && edgeDominates(t.branch, t.presentSucc, b) {
-								linked = true
+			for _, fn := range cluster {
+				tests := membershipTests(fn)
+				forEachInstr(fn, func(b *ssa.BasicBlock, ins ssa.Instruction) {
+					st, ok := ins.(*ssa.Store)
+					if !ok {
+						return
+					}
+					fa, ok := st.Addr.(*ssa.FieldAddr)
+					if !ok {
+						return
+					}
+					if tn, f, _, _ := fieldOf(fa); tn != "MatchFieldAttribute" || f != "MatchKeyField" {
+						return
+					}
+					if ex, ok := stripIdentity(st.Val).(*ssa.Extract); ok {
+						if lk, ok := ex.Tuple.(*ssa.Lookup); ok && lk.CommaOk {
+							for _, t := range tests {
+								if t.lookup == lk && edgeDominates(t.branch, t.presentSucc, b) {
+									linked = true
+								}
 							}
 						}
 					}
-				}
-			})
+				})
+			}
 			key := fnKey(fn) + " links match fields to their key field"
 			if linked {
 				r.pass(ruleLink, key, w.pos(fn.Pos()), "")
@@ -897,11 +953,42 @@ func c12Resolution(w *World, r *Report) {
 		}
 	}
 	// @lengthOf placement: two guarded diagnostics under the LengthFieldAttribute test, each skipping the field
-	vpd := lookupFunc(w.Parser, "PacketDslVisitorImpl", "VisitPacketDefinition")
+	theWorld = w
+	kinds := map[string]bool{}
+	var vpd *ssa.Function
+	for _, col := range fieldCollectors(w) {
+		c12Placement(w, col, kinds)
+		if vpd == nil || len(kinds) > 0 && vpd == nil {
+			vpd = col
+		}
+	}
 	if vpd == nil {
-		r.fatal("anchor unresolved: (*PacketDslVisitorImpl).VisitPacketDefinition")
+		r.fail(rule, "@lengthOf placement diagnostics", "internal/parser/packet_dsl_parser.go", "no routine collecting declared fields found in the parse phase")
 		return
 	}
+	for _, k := range []string{"outside-root", "declared-twice"} {
+		key := "@lengthOf " + k + " is diagnosed and the field skipped"
+		if kinds[k] {
+			r.pass(rule, key, w.pos(vpd.Pos()), "")
+		} else {
+			r.fail(rule, key, w.pos(vpd.Pos()), fmt.Sprintf("no AddSyntaxError for a length-of field %s that also skips the field (found: %v)", k, sortedBoolKeys(kinds)))
+		}
+	}
+}
+
+func sortedBoolKeys(m map[string]bool) []string {
+	var out []string
+	for k := range m {
+		out = append(out, k)
+	}
+	sort.Strings(out)
+	return out
+}
+
+var theWorld *World
+
+// c12Placement: the guarded diagnostics under the LengthFieldAttribute test of one field collector, each skipping the field.
+func c12Placement(w *World, vpd *ssa.Function, kinds map[string]bool) {
 	var lenTestBlock *ssa.BasicBlock
 	for _, b := range vpd.Blocks {
 		iff, ok := b.Instrs[len(b.Instrs)-1].(*ssa.If)
@@ -919,7 +1006,6 @@ func c12Resolution(w *World, r *Report) {
 		}
 	}
 	if lenTestBlock == nil {
-		r.fail(rule, "@lengthOf placement diagnostics", w.pos(vpd.Pos()), "VisitPacketDefinition no longer tests a field for being a length field")
 		return
 	}
 	var appendCall ssa.Instruction
@@ -932,7 +1018,6 @@ func c12Resolution(w *World, r *Report) {
 			}
 		}
 	})
-	kinds := map[string]bool{}
 	for _, b := range vpd.Blocks {
 		if !edgeDominates(lenTestBlock, 0, b) {
 			continue
@@ -962,23 +1047,6 @@ func c12Resolution(w *World, r *Report) {
 			}
 		}
 	}
-	for _, k := range []string{"outside-root", "declared-twice"} {
-		key := "@lengthOf " + k + " is diagnosed and the field skipped"
-		if kinds[k] {
-			r.pass(rule, key, w.pos(vpd.Pos()), "")
-		} else {
-			r.fail(rule, key, w.pos(vpd.Pos()), fmt.Sprintf("no AddSyntaxError for a length-of field %s that also skips the field (found: %v)", k, sortedBoolKeys(kinds)))
-		}
-	}
-}
-
-func sortedBoolKeys(m map[string]bool) []string {
-	var out []string
-	for k := range m {
-		out = append(out, k)
-	}
-	sort.Strings(out)
-	return out
 }
 
 func dependsOnROOT(v ssa.Value, depth int) bool {
@@ -986,6 +1054,29 @@ func dependsOnROOT(v ssa.Value, depth int) bool {
 		return false
 	}
 	switch x := v.(type) {
+	case *ssa.Parameter:
+		// a flag handed in by the callers: some caller derives it from ROOT()
+		fn := x.Parent()
+		if fn == nil || theWorld == nil {
+			return false
+		}
+		n := theWorld.CallGraph().Nodes[fn]
+		if n == nil {
+			return false
+		}
+		for i, q := range fn.Params {
+			if q != x {
+				continue
+			}
+			for _, e := range n.In {
+				if e.Site != nil && !e.Site.Common().IsInvoke() && i < len(e.Site.Common().Args) && dependsOnROOT(e.Site.Common().Args[i], depth+1) {
+					return true
+				}
+			}
+		}
+		return false
+	case *ssa.Extract:
+		return dependsOnROOT(x.Tuple, depth+1)
 	case *ssa.Call:
 		if f := x.Call.StaticCallee(); f != nil && f.Name() == "ROOT" {
 			return true
@@ -1253,7 +1344,7 @@ func contains(xs []string, s string) bool {
 	return false
 }
 
-// padCharLexemes evaluates PADDING_CHAR: '\'' ('0' | ' ' | '\\x00') '\'' to its literal lexemes.
+// padCharLexemes evaluates PADDING_CHAR: '\” ('0' | ' ' | '\\x00') '\” to its literal lexemes.
 func padCharLexemes(g *Grammar) []string {
 	lr := g.lrule["PADDING_CHAR"]
 	if lr == nil {
